@@ -349,7 +349,7 @@ func projectFile(path string, o sOpts) sProj {
 	var p sProj
 	b, err := os.ReadFile(path)
 	if err != nil {
-		p.Err = err.Error()
+		p.Err = "env: " + err.Error() // the harness cannot read the file: an environment fault, not an observation
 		return p
 	}
 	p.Bytes = b
@@ -738,6 +738,10 @@ func runStorePath(g *sGraph, init *sNode, kind string, ops []sOp, dir string, re
 			res = "err"
 		}
 		p := projectFile(path, init.S.O)
+		if strings.HasPrefix(p.Err, "env: ") {
+			rep.inconclusive(fmt.Sprintf("%s step %d: %s", kind, i, p.Err))
+			return nil
+		}
 		if dropped {
 			p.Closed = true
 		} else {
@@ -1116,6 +1120,8 @@ func compareUninterrupted(g *sGraph, init *sNode, kind string, ops []sOp, dir st
 		if err != nil {
 			return nil, err
 		}
+		// the storage API leaves the file to its caller: release every handle (Discard is idempotent)
+		defer func() { st.Discard() }()
 		open := true
 		for _, o := range seq {
 			switch o.Op {
@@ -1136,6 +1142,7 @@ func compareUninterrupted(g *sGraph, init *sNode, kind string, ops []sOp, dir st
 					if err := st.Finalize(); err != nil {
 						return nil, err
 					}
+					st.Discard()
 					open = false
 				}
 			case "reopen":
